@@ -503,4 +503,3 @@ func plainBoundaryTest(bo *ssa.BinOp) bool {
 	}
 	return (isBsp(bo.X) && isLen(bo.Y)) || (isLen(bo.X) && isBsp(bo.Y)) || (isLen(bo.X) && isZero(bo.Y)) || (isZero(bo.X) && isLen(bo.Y))
 }
-
